@@ -400,7 +400,11 @@ static int cmd_run(int argc, char **argv) {
     auto absorb = [&](Worker &w) { for (auto &kv : w.counters) counters[kv.first] += kv.second; events += w.events; w.counters.clear(); w.events = 0; };
     for (int i = 0; i < workers; ++i) { ws[(size_t) i].id = i; ws[(size_t) i].next_index = i; spawn(ws[(size_t) i], i); }
     int active = workers;
-    const size_t max_cands = 12;
+    const size_t max_cands = getenv("CIFSIM_MAX_CANDS") ? (size_t) atol(getenv("CIFSIM_MAX_CANDS")) : 12;   // development aid: collect more distinct violations per search
+    // one candidate per (clause, signature): repeated sightings are only counted, so that a frequent (e.g. known) finding
+    // neither ends the search early nor crowds out other violations
+    std::map<std::string, long> cand_sightings;
+    auto add_cand = [&](const Candidate &c) { if (cand_sightings[c.clause + "|" + c.sig]++ == 0 && cands.size() < max_cands) cands.push_back(c); };
     while (active > 0) {
         std::vector<struct pollfd> pf; std::vector<int> idx;
         for (int i = 0; i < workers; ++i) if (ws[(size_t) i].fd >= 0) { pf.push_back({ws[(size_t) i].fd, POLLIN, 0}); idx.push_back(i); }
@@ -423,7 +427,7 @@ static int cmd_run(int argc, char **argv) {
                     else if (f[0] == "T") { w.counters.clear(); w.events = f.size() > 1 ? strtoull(f[1].c_str(), NULL, 10) : 0; for (size_t q = 2; q < f.size(); ++q) { size_t eq = f[q].find('='); if (eq != std::string::npos) w.counters[f[q].substr(0, eq)] = strtoull(f[q].substr(eq + 1).c_str(), NULL, 10); } }
                     else if (f[0] == "C") { for (size_t q = 1; q < f.size(); ++q) distinct.insert(strtoull(f[q].c_str(), NULL, 16)); }
                     else if (f[0] == "P" && f.size() > 2) { if (samples.size() < 5) samples.push_back(strprintf("run %s: ", f[1].c_str()) + dec(f[2])); }
-                    else if (f[0] == "V" && f.size() > 4) { if (cands.size() < max_cands) cands.push_back({(uint64_t) atol(f[1].c_str()), dec(f[2]), dec(f[3]), dec(f[4]), false}); w.next_index = atol(f[1].c_str()) + workers; w.current = -1; ++done_runs; }
+                    else if (f[0] == "V" && f.size() > 4) { add_cand({(uint64_t) atol(f[1].c_str()), dec(f[2]), dec(f[3]), dec(f[4]), false}); w.next_index = atol(f[1].c_str()) + workers; w.current = -1; ++done_runs; }
                     else if (f[0] == "E") w.finished = true;
                 }
             } else {
@@ -434,7 +438,7 @@ static int cmd_run(int argc, char **argv) {
                 bool after_violation = WIFEXITED(status) && WEXITSTATUS(status) == 3;
                 if (!normal && !after_violation && w.current >= 0) {
                     std::string clause, sig, detail; classify_death(base.prop, status, read_tail(w.errpath), clause, sig, detail);
-                    if (cands.size() < max_cands) cands.push_back({(uint64_t) w.current, clause, sig, detail, true});
+                    add_cand({(uint64_t) w.current, clause, sig, detail, true});
                     w.next_index = w.current + workers; ++done_runs;
                 } else if (!normal && !after_violation) {
                     fprintf(stderr, "cifsim: worker %d died outside a run (status %d)\n%s\n", w.id, status, read_tail(w.errpath, 2000).c_str());
